@@ -363,6 +363,15 @@ func ampMax() int {
 	return 32 << 10
 }
 
+// containerTower is the signature of d nested lists ("[") or maps ("{i", "{s") around an int32.
+func containerTower(open string, d int) string {
+	closer := "]"
+	if open[0] == '{' {
+		closer = "}"
+	}
+	return strings.Repeat(open, d) + "i" + strings.Repeat(closer, d)
+}
+
 func amplifier(t *rapid.T, c *Case) []byte {
 	max := ampMax()
 	excludeParens := vt.Known("C07:sigparse:paren-nesting")
@@ -371,7 +380,7 @@ func amplifier(t *rapid.T, c *Case) []byte {
 		parenDepthMax = maxParenDepthKnown
 		vt.Excluded("C07:sigparse:paren-nesting")
 	}
-	kind := rapid.SampledFrom([]string{"list-tower", "zero-width-count", "paren-tower", "unclosed", "sig-in-value", "deep-list-sig", "struct-tower"}).Draw(t, "amp")
+	kind := rapid.SampledFrom([]string{"list-tower", "zero-width-count", "paren-tower", "unclosed", "sig-in-value", "deep-list-sig", "struct-tower", "sig-container-tower"}).Draw(t, "amp")
 	c.Kind = "amplifier:" + kind
 	count := rapid.SampledFrom(hostile).Draw(t, "count")
 	depth := rapid.OneOf(rapid.IntRange(1, max/12), rapid.IntRange(max/24, max/12)).Draw(t, "depth")
@@ -408,6 +417,11 @@ func amplifier(t *rapid.T, c *Case) []byte {
 	case "struct-tower":
 		sig = strings.Repeat("(", pdepth) + "i" + strings.Repeat(")<S,a>", pdepth)
 		body = []byte{1, 0, 0, 0}
+	case "sig-container-tower":
+		// thousands of nested lists or maps in a signature (the parser is linear
+		// in them: whatever is kept per level must not grow with the level)
+		sig = containerTower(rapid.SampledFrom([]string{"[", "{i", "{s"}).Draw(t, "sigopen"), rapid.IntRange(max/8, max/3).Draw(t, "sigdepth"))
+		body = []byte{0, 0, 0, 0}
 	}
 	switch c.Entry {
 	case "sigparse":
@@ -447,7 +461,7 @@ func amplifier(t *rapid.T, c *Case) []byte {
 var sigAlphabet = []string{"c", "C", "w", "W", "i", "I", "l", "L", "f", "d", "b", "s", "m", "o", "X", "v", "r", "[", "]", "{", "}", "(", ")", "<", ">", ",", "A", "name", "_", " ", "é", "<T>"}
 
 var idlAlphabet = []string{"package", "interface", "end", "struct", "enum", "fn", "sig", "prop", "->", "(", ")", ":", ",", "<", ">", "//uid:", "//",
-	"Vec<", "Map<", "Tuple<", "int32", "str", "any", "obj", "bool", "\n", " ", "=", "1", "a", "Name", "é", "\x00"}
+	"Vec<", "Map<", "Tuple<", "int32", "str", "any", "obj", "bool", "\n", " ", "=", "1", "a", "Name", "é", "\x00", ".", "..", "-", "_", "Tuple<>", "nothing", "unknown"}
 
 const fallbackIDL = "package p\ninterface I\n\tfn f(a: int32, b: Vec<str>) -> Map<str,S> //uid:100\n\tsig s(a: S) //uid:101\n\tprop p(a: bool) //uid:102\nend\nstruct S\n\ta: int32\n\tb: Vec<Map<str,any>>\nend\n"
 
@@ -558,6 +572,16 @@ func genCase(t *rapid.T) Case {
 			o.Leaves = append(o.Leaves, ref.KObject, ref.KUnknown)
 			o.Depth = 4
 			data = []byte(mutateText(t, gen.DrawType(t, o).Sig(), sigAlphabet))
+		} else if rapid.IntRange(0, 4).Draw(t, "pkgclause") == 0 {
+			// the package clause has a token class of its own (dots and dashes):
+			// name pieces and separators in any order ahead of any body
+			n := rapid.IntRange(0, 6).Draw(t, "pieces")
+			name := ""
+			for i := 0; i < n; i++ {
+				name += rapid.SampledFrom([]string{"a", "qi", "v5", "B_1", ".", ".", "..", "-", "_", " ", "\t", "9", "é", "\x00", "//", "\n"}).Draw(t, "piece")
+			}
+			body := rapid.SampledFrom([]string{"", "\n", "\ninterface I\n\tfn f()\nend\n", "\nstruct S\n\ta: int32\nend\n", " // c\n"}).Draw(t, "pkgbody")
+			data = []byte("package " + name + body)
 		} else {
 			data = []byte(mutateText(t, rapid.SampledFrom(idlCorpus).Draw(t, "corpus"), idlAlphabet))
 		}
@@ -693,6 +717,20 @@ func checkCase(c Case) error {
 		// (no such relation on wall-clock time: one garbage collection or a busy
 		// machine is enough to break it)
 		vt.Label("tower-scaling-checked")
+	}
+	// Towers of nested containers in a signature: the same relation, against a
+	// well-formed tower of half the depth
+	if c.Kind == "amplifier:sig-container-tower" && c.Entry == "sigparse" && len(data) >= 4096 && !polluted {
+		open := "["
+		if data[0] == '{' {
+			open = string(data[:2])
+		}
+		d := strings.Count(string(data), open[:1])
+		half := measure(c, []byte(containerTower(open, d/2)))
+		if !half.timedOut && half.panicked == nil && res.alloc > 8<<20 && res.alloc > 3*half.alloc+(4<<20) {
+			return vt.Violationf(classOf(c, "superlinear-alloc"), "%s allocated %d bytes for a signature of %d nested containers (%d bytes) but %d bytes for one of half the depth: more than linear in the depth: %s", c.Entry, res.alloc, d, len(data), half.alloc, short)
+		}
+		vt.Label("sig-tower-scaling-checked")
 	}
 	// One long string: twice the length may cost about twice as much
 	if c.LongLen > 0 && !polluted {
